@@ -161,7 +161,8 @@ func (x *Exec) callFunc(st *State, fr *Frame, fn *ssa.Function, args []*Val, bin
 		m(st, fr, fn, args, pos, cont)
 		return
 	}
-	if c := x.contractFor(fn); c != nil && !(c.has("inline")) {
+	inlineAll := len(st.frames) > 0 && st.frames[0].con != nil && st.frames[0].con.has("inlinecalls") && fn.Blocks != nil && inModule(fn)
+	if c := x.contractFor(fn); c != nil && !(c.has("inline")) && !inlineAll {
 		x.callByContract(st, fr, c, fn.Signature, fn, args, pos, cont)
 		return
 	}
